@@ -9,6 +9,8 @@ import ChibiVerif.Lemmas.LinkageExact
 namespace ChibiVerif.Linkage
 open ChibiVerif.Spec.Linkage
 
+variable [Rules]
+
 /-! ### lookups only ever gain answers -/
 
 /-- a predicate that looks at the identity of an object only -/
@@ -128,7 +130,7 @@ theorem initItems_ok {cur : Option Name} {fs xs : List Name} : ∀ (items : List
     simp only [initItems, h1, h2, bind, Except.bind, pure, Except.pure]
     exact ⟨_, _, rfl⟩
   | .str n :: rest, st, k, hf, hx => by
-    have k1 : Knows (newAnon st (strTy n) true).1.globals fs xs := k.evolves (evolves_newAnon st (strTy n) true [])
+    have k1 : Knows (newAnon cur st (strTy n) true).1.globals fs xs := k.evolves (evolves_newAnon cur st (strTy n) true [])
     obtain ⟨st2, ss, h2⟩ := initItems_ok (cur := cur) rest _ k1
       (fun g hg => hf g (by simpa [initFnRefs] using hg)) (fun x hx' => hx x (by simpa [initObjRefs] using hx'))
     simp only [initItems, h2, bind, Except.bind, pure, Except.pure]
@@ -163,16 +165,16 @@ theorem bodyItems_ok {f : Name} {fs : List Name} : ∀ (items : List BodyItem) (
         | none =>
           simp only [bodyOrdered] at h
           refine ⟨_, _, xs, rfl, ?_, h⟩
-          exact k.evolves (Evolves.upd _ _ (fun _ => ⟨rfl, rfl, rfl, rfl⟩) (evolves_newAnon st ty false []))
+          exact k.evolves (Evolves.upd _ _ (fun _ => ⟨rfl, rfl, rfl, rfl⟩) (evolves_newAnon (some f) st ty false []))
         | some items =>
           simp only [bodyOrdered, Bool.and_eq_true] at h
-          have k0 : Knows ({ (newAnon st ty true).1 with
-              globals := updFirst (fun o => o.sym == (newAnon st ty true).2 && !o.isFunction) (fun o => { o with isTls := tls })
-                (newAnon st ty true).1.globals } : PState).globals fs xs :=
-            k.evolves (Evolves.upd _ _ (fun _ => ⟨rfl, rfl, rfl, rfl⟩) (evolves_newAnon st ty true []))
+          have k0 : Knows ({ (newAnon (some f) st ty true).1 with
+              globals := updFirst (fun o => o.sym == (newAnon (some f) st ty true).2 && !o.isFunction) (fun o => { o with isTls := tls })
+                (newAnon (some f) st ty true).1.globals } : PState).globals fs xs :=
+            k.evolves (Evolves.upd _ _ (fun _ => ⟨rfl, rfl, rfl, rfl⟩) (evolves_newAnon (some f) st ty true []))
           obtain ⟨st1, ss, h1⟩ := initItems_ok (cur := some f) items _ k0 (all_contains h.1.1) (all_contains h.1.2)
           have hb : bodyItem f st (.staticLocal tls ty (some items)) =
-              .ok ({ st1 with globals := setUses st1.globals (newAnon st ty true).2 ss }, [(newAnon st ty true).2]) := by
+              .ok ({ st1 with globals := setUses st1.globals (newAnon (some f) st ty true).2 ss }, [(newAnon (some f) st ty true).2]) := by
             simp only [bodyItem, Option.isSome_some, bind, Except.bind]
             rw [h1]
             rfl
@@ -180,11 +182,11 @@ theorem bodyItems_ok {f : Name} {fs : List Name} : ∀ (items : List BodyItem) (
           exact k.evolves (evolves_bodyItem hb)
       | str n =>
         simp only [bodyOrdered] at h
-        exact ⟨_, _, xs, rfl, k.evolves (evolves_newAnon st (strTy n) true []), h⟩
+        exact ⟨_, _, xs, rfl, k.evolves (evolves_newAnon (some f) st (strTy n) true []), h⟩
       | externObj x tls ty =>
         simp only [bodyOrdered] at h
         refine ⟨_, _, x :: xs, rfl, ?_, h⟩
-        have k1 : Knows (externO x tls ty :: st.globals) fs xs :=
+        have k1 : Knows (externO x tls ty (Rules.externInherits && prevStatic st.globals x) :: st.globals) fs xs :=
           k.evolves (Evolves.consData _ (by rfl) (by rfl) Evolves.refl)
         refine ⟨k1.1, fun y hy => ?_⟩
         rcases List.mem_cons.mp hy with rfl | hy
@@ -197,36 +199,55 @@ theorem bodyItems_ok {f : Name} {fs : List Name} : ∀ (items : List BodyItem) (
 
 /-! ### redeclarations are compatible -/
 
-/-- the two fields of a function object the redeclaration check reads -/
-def projDS (v : FV) : Bool × Bool := (v.isDefinition, v.isStatic)
-
-/-- no diagnostic of `function` fires on the declarations `D` of one function, starting from the recorded
-    (`is_definition`, `is_static`) -/
-def fnOKFrom : Option (Bool × Bool) → List FnDecl → Bool
+/-- no diagnostic of `function` fires on the declarations `D` of one function, starting from the recorded flags
+    (the checks read `is_definition` and `is_static`; with `Rules.flagsFollow` the latter changes along the way) -/
+def fnOKFrom : Option Flags → List FnDecl → Bool
   | _, [] => true
-  | none, d :: D => fnOKFrom (some (d.body.isSome, d.isStatic || (d.isInline && !d.isExtern))) D
-  | some (df, st), d :: D =>
-    !(df && d.body.isSome) && !(!st && d.isStatic) && fnOKFrom (some (df || d.body.isSome, st)) D
+  | none, d :: D => fnOKFrom (some (newFlags d.isStatic d.isExtern d.isInline d.body.isSome)) D
+  | some q, d :: D =>
+    !(q.isDefinition && d.body.isSome) && !(!q.isStatic && d.isStatic) &&
+      fnOKFrom (some (redeclF d.isExtern d.isInline d.body.isSome q)) D
 
-theorem fnOKFrom_some : ∀ (D : List FnDecl) (df st : Bool), (df = true → D.all (fun d => d.body.isNone) = true) →
-    (D.filter (fun d => d.body.isSome)).length ≤ 1 → (st = false → D.all (fun d => !d.isStatic) = true) →
-    fnOKFrom (some (df, st)) D = true
-  | [], _, _, _, _, _ => rfl
-  | d :: D, df, st, h1, h2, h3 => by
+theorem redeclF_isDefinition (e i b : Bool) (q : Flags) : (redeclF e i b q).isDefinition = (q.isDefinition || b) := by
+  unfold redeclF
+  cases Rules.flagsFollow
+  · rfl
+  · obtain ⟨st, inl, idf, df⟩ := q
+    cases idf <;> cases i <;> cases e <;> cases st <;> cases df <;> rfl
+
+/-- a function with internal linkage keeps `is_static` -/
+theorem redeclF_internal (e i b : Bool) (q : Flags) (h : q.isStatic = true ∧ q.isInlineDef = false) :
+    (redeclF e i b q).isStatic = true ∧ (redeclF e i b q).isInlineDef = false := by
+  unfold redeclF
+  obtain ⟨st, inl, idf, df⟩ := q
+  obtain ⟨h1, h2⟩ := h
+  simp only at h1 h2
+  subst h1 h2
+  cases Rules.flagsFollow
+  · exact ⟨rfl, rfl⟩
+  · cases i <;> cases e <;> cases df <;> exact ⟨rfl, rfl⟩
+
+theorem fnOKFrom_some : ∀ (D : List FnDecl) (q : Flags), (q.isDefinition = true → D.all (fun d => d.body.isNone) = true) →
+    (D.filter (fun d => d.body.isSome)).length ≤ 1 →
+    (¬ (q.isStatic = true ∧ q.isInlineDef = false) → D.all (fun d => !d.isStatic) = true) →
+    fnOKFrom (some q) D = true
+  | [], _, _, _, _ => rfl
+  | d :: D, q, h1, h2, h3 => by
     simp only [fnOKFrom, Bool.and_eq_true, Bool.not_eq_true', Bool.and_eq_false_iff]
-    refine ⟨⟨?_, ?_⟩, fnOKFrom_some D _ st ?_ ?_ ?_⟩
-    · cases hdf : df
+    refine ⟨⟨?_, ?_⟩, fnOKFrom_some D _ ?_ ?_ ?_⟩
+    · cases hdf : q.isDefinition
       · exact Or.inl rfl
       · have := h1 hdf
         simp only [List.all_cons, Bool.and_eq_true] at this
         right
         cases hb : d.body <;> simp_all
-    · cases hst : st
-      · have := h3 hst
+    · by_cases hint : q.isStatic = true ∧ q.isInlineDef = false
+      · exact Or.inl (by rw [hint.1]; rfl)
+      · have := h3 hint
         simp only [List.all_cons, Bool.and_eq_true, Bool.not_eq_true'] at this
         exact Or.inr this.1
-      · exact Or.inl rfl
     · intro hdf'
+      rw [redeclF_isDefinition] at hdf'
       cases hb : d.body.isSome
       · simp only [hb, Bool.or_false] at hdf'
         have := h1 hdf'
@@ -244,10 +265,12 @@ theorem fnOKFrom_some : ∀ (D : List FnDecl) (df st : Bool), (df = true → D.a
       split at h2
       · simp only [List.length_cons] at h2; omega
       · exact h2
-    · intro hst
-      have := h3 hst
-      simp only [List.all_cons, Bool.and_eq_true] at this
-      exact this.2
+    · intro hnot
+      by_cases hint : q.isStatic = true ∧ q.isInlineDef = false
+      · exact absurd (redeclF_internal _ _ _ q hint) hnot
+      · have := h3 hint
+        simp only [List.all_cons, Bool.and_eq_true] at this
+        exact this.2
 
 theorem fnOKFrom_valid (D : List FnDecl) (h : fnValid D = true) : fnOKFrom none D = true := by
   cases D with
@@ -258,7 +281,8 @@ theorem fnOKFrom_valid (D : List FnDecl) (h : fnValid D = true) : fnOKFrom none 
     simp only [fnOKFrom]
     apply fnOKFrom_some
     · intro hb
-      simp only [List.filter_cons, hb, if_true, List.length_cons] at h1
+      have hb' : d.body.isSome = true := hb
+      simp only [List.filter_cons, hb', if_true, List.length_cons] at h1
       have h0 : (D.filter (fun d => d.body.isSome)).length = 0 := by omega
       rw [List.length_eq_zero_iff, List.filter_eq_nil_iff] at h0
       rw [List.all_eq_true]
@@ -269,47 +293,18 @@ theorem fnOKFrom_valid (D : List FnDecl) (h : fnValid D = true) : fnOKFrom none 
       split at h1
       · simp only [List.length_cons] at h1; omega
       · exact h1
-    · intro hst
-      simp only [Bool.or_eq_false_iff] at hst
+    · intro hnot
+      -- the first declaration is not `static`
+      have hs : d.isStatic = false := by
+        cases hds : d.isStatic
+        · rfl
+        · exfalso
+          apply hnot
+          simp [newFlags, hds]
       rcases h3 with h3 | h3
-      · simp [fnInternal, hst.1] at h3
+      · simp [fnInternal, hs] at h3
       · simp only [List.all_cons, Bool.and_eq_true] at h3
         exact h3.2
-
-/-- the recorded (`is_definition`, `is_static`) of `g` after one more declaration -/
-def stepDS (d : Decl) (g : Name) (cur : Option (Bool × Bool)) : Option (Bool × Bool) :=
-  match d with
-  | .func f _ s e i body =>
-    if g = f then
-      some (match cur with
-        | some (df, st) => (df || body.isSome, st)
-        | none => (body.isSome, s || (i && !e)))
-    else cur
-  | .obj .. => cur
-
-theorem projDS_stepFV (d : Decl) (g : Name) (cur : Option FV) : (stepFV d g cur).map projDS = stepDS d g (cur.map projDS) := by
-  cases d with
-  | func f n s e i body =>
-    simp only [stepFV, stepDS]
-    by_cases hg : g = f
-    · simp only [hg, if_true, Option.map_some]
-      cases cur with
-      | none =>
-        cases body <;>
-          simp [projDS, addRefs, rootIf_isDefinition, rootIf_isStatic]
-      | some v =>
-        cases body <;>
-          simp [projDS, addRefs, rootIf_isDefinition, rootIf_isStatic, orDef]
-    · simp [hg]
-  | obj x s e t ty init =>
-    cases init with
-    | none => rfl
-    | some items =>
-      simp only [stepFV, stepDS, Option.map_map]
-      congr 1
-      funext v
-      simp only [Function.comp, projDS]
-      split <;> rfl
 
 theorem fnDecls_cons_func (f : Name) (n : Nat) (s e i : Bool) (body : Option (List BodyItem)) (ds : List Decl) (g : Name) :
     fnDecls (.func f n s e i body :: ds) g = if f = g then ⟨s, e, i, body⟩ :: fnDecls ds g else fnDecls ds g := by
@@ -322,18 +317,18 @@ theorem fnDecls_cons_obj (x : Name) (s e t : Bool) (ty : ObjTy) (init : Option (
 
 /-- every function's remaining declarations are compatible with what has been recorded -/
 def FnsOK (gs : List Obj) (ds : List Decl) : Prop :=
-  ∀ g, fnOKFrom ((T gs g).map projDS) (fnDecls ds g) = true
+  ∀ g, fnOKFrom ((T gs g).map flagsOf) (fnDecls ds g) = true
 
 theorem declFunctionHead_ok {st : PState} {f : Name} {s e i b : Bool} {D : List FnDecl} {body : Option (List BodyItem)}
-    (hb : b = body.isSome) (h : fnOKFrom ((T st.globals f).map projDS) (⟨s, e, i, body⟩ :: D) = true) :
+    (hb : b = body.isSome) (h : fnOKFrom ((T st.globals f).map flagsOf) (⟨s, e, i, body⟩ :: D) = true) :
     ∃ st', declFunctionHead st f s e i b = .ok st' := by
   unfold declFunctionHead
   cases hf : findFunc st.globals f with
   | none => exact ⟨_, rfl⟩
   | some fn =>
-    have hT : (T st.globals f).map projDS = some (fn.isDefinition, fn.isStatic) := by simp [T, hf, projDS, fview]
+    have hT : (T st.globals f).map flagsOf = some (flagsOf (fview fn)) := by simp [T, hf]
     rw [hT] at h
-    simp only [fnOKFrom, Bool.and_eq_true, Bool.not_eq_true'] at h
+    simp only [fnOKFrom, Bool.and_eq_true, Bool.not_eq_true', flagsOf, fview] at h
     simp only [hb, h.1.1, h.1.2]
     exact ⟨_, rfl⟩
 
@@ -346,19 +341,18 @@ theorem declStep_ok {st : PState} {d : Decl} {ds : List Decl} {fs xs : List Name
   -- whatever the step is, the table of (is_definition, is_static) follows `stepDS`
   have table : ∀ st', declStep st d = .ok st' → FnsOK st'.globals ds := by
     intro st' h g
-    rw [T_declStep h, stepT_eq, projDS_stepFV]
+    rw [T_declStep h, stepT_eq, flagsOf_stepFV]
     have hg := hF g
     cases d with
     | func f n s e i body =>
       rw [fnDecls_cons_func] at hg
-      simp only [stepDS]
+      simp only [stepFlags]
       by_cases hfg : g = f
       · subst hfg
         simp only [if_true] at hg ⊢
-        cases hc : (T st.globals g).map projDS with
+        cases hc : (T st.globals g).map flagsOf with
         | none => rw [hc] at hg; simpa [fnOKFrom] using hg
-        | some p =>
-          obtain ⟨df, sst⟩ := p
+        | some q =>
           rw [hc] at hg
           simp only [fnOKFrom, Bool.and_eq_true] at hg
           exact hg.2
@@ -396,7 +390,7 @@ theorem declStep_ok {st : PState} {d : Decl} {ds : List Decl} {fs xs : List Name
       exact ⟨st1, f :: fs, xs, hd, table _ hd, k1, hr.2⟩
     | some items =>
       simp only at hr
-      let stA := (newAnon (newAnon st1 (strTy (n + 1)) true).1 (strTy (n + 1)) true).1
+      let stA := (newAnon (some f) (newAnon (some f) st1 (strTy (n + 1)) true).1 (strTy (n + 1)) true).1
       have kA : Knows stA.globals (f :: fs) xs :=
         k1.evolves (Evolves.consData _ rfl rfl (Evolves.consData _ rfl rfl Evolves.refl))
       obtain ⟨st2, us, h2⟩ := bodyItems_ok (f := f) items stA xs kA hr.1
@@ -413,8 +407,8 @@ theorem declStep_ok {st : PState} {d : Decl} {ds : List Decl} {fs xs : List Name
     cases init with
     | none =>
       refine ⟨_, fs, x :: xs, rfl, table _ rfl, ?_, hr.2⟩
-      show Knows (varObj 0 x s e t ty none :: st.globals) fs (x :: xs)
-      have k1 : Knows (varObj 0 x s e t ty none :: st.globals) fs xs :=
+      show Knows (varObj 0 x (varStatic (prevStatic st.globals) x s e) e t ty none :: st.globals) fs (x :: xs)
+      have k1 : Knows (varObj 0 x (varStatic (prevStatic st.globals) x s e) e t ty none :: st.globals) fs xs :=
         k.evolves (Evolves.consData _ (by rfl) (by rfl) Evolves.refl)
       refine ⟨k1.1, fun y hy => ?_⟩
       rcases List.mem_cons.mp hy with rfl | hy
@@ -422,7 +416,7 @@ theorem declStep_ok {st : PState} {d : Decl} {ds : List Decl} {fs xs : List Name
       · exact k1.2 y hy
     | some items =>
       simp only [Bool.and_eq_true] at hr
-      let var : Obj := { sym := .named x, isDefinition := true, isStatic := s, isTls := t, ty := ty, hasInit := true }
+      let var : Obj := { sym := .named x, isDefinition := true, isStatic := varStatic (prevStatic st.globals) x s e, isTls := t, ty := ty, hasInit := true }
       have k1 : Knows (var :: st.globals) fs (x :: xs) := by
         have k1 := k.evolves (gs' := var :: st.globals) (Evolves.consData _ rfl rfl Evolves.refl)
         refine ⟨k1.1, fun y hy => ?_⟩
@@ -434,7 +428,9 @@ theorem declStep_ok {st : PState} {d : Decl} {ds : List Decl} {fs xs : List Name
       have hd : declStep st (.obj x s e t ty (some items)) = .ok { st1 with
           globals := updFirst (fun o => o.sym == .named x && !o.isFunction) (fun o => { o with uses := ss }) st1.globals } := by
         simp only [declStep, declObject, bind, Except.bind]
-        rw [h1]
+        have h1' := h1
+        simp only [var, varStatic] at h1'
+        rw [h1']
         rfl
       refine ⟨_, fs, x :: xs, hd, table _ hd, ?_, hr.2⟩
       exact (k1.evolves (evolves_initItems items h1)).evolves (Evolves.upd _ _ (keeps_setUses ss) Evolves.refl)
@@ -511,16 +507,33 @@ theorem mem_objNames {ds : List Decl} {x : Name} : x ∈ objNames ds ↔ objDecl
       · simp [hg] at hne
     | func => simp at hne
 
+/-! ### the parts of `valid` -/
+
+theorem valid_parts {ds : List Decl} (hv : valid ds = true) :
+    (∀ f, f ∈ fnNames ds → fnValid (fnDecls ds f) = true) ∧
+    (∀ x, x ∈ objNames ds → objValid (objDecls ds x) = true) ∧
+    (∀ f, f ∈ fnNames ds → f ∉ objNames ds ∧ f ∉ blockExternNames ds) ∧
+    refsOrdered ds [] [] = true ∧
+    (∀ f, f ∈ fnNames ds → fnInternal (fnDecls ds f) = true → fnDefined (fnDecls ds f) = false → f ∉ usedNames ds) ∧
+    blockExternsAgree ds = true := by
+  simp only [valid, Bool.and_eq_true, List.all_eq_true] at hv
+  obtain ⟨⟨⟨⟨⟨h1, h2⟩, h3⟩, h4⟩, h5⟩, h6⟩ := hv
+  refine ⟨h1, h2, fun f hf => ?_, h4, fun f hf hi hd hu => ?_, h6⟩
+  · have := h3 f hf
+    simpa using this
+  · have := h5 f hf
+    simp [hi, hd, hu] at this
+
+theorem valid_ordered {ds : List Decl} (hv : valid ds = true) : refsOrdered ds [] [] = true := (valid_parts hv).2.2.2.1
+
 /-- **`parse` accepts the unit.** -/
-theorem parse_ok {ds : List Decl} (hv : valid ds = true) (ho : refsOrdered ds [] [] = true) :
-    ∃ st, declAll {} ds = .ok st := by
-  refine declAll_ok ds {} [] [] ?_ ⟨fun _ h => absurd h List.not_mem_nil, fun _ h => absurd h List.not_mem_nil⟩ ho
+theorem parse_ok {ds : List Decl} (hv : valid ds = true) : ∃ st, declAll {} ds = .ok st := by
+  refine declAll_ok ds {} [] [] ?_ ⟨fun _ h => absurd h List.not_mem_nil, fun _ h => absurd h List.not_mem_nil⟩ (valid_ordered hv)
   intro g
-  have hT : (T ({} : PState).globals g).map projDS = none := rfl
+  have hT : (T ({} : PState).globals g).map flagsOf = none := rfl
   rw [hT]
   by_cases hg : g ∈ fnNames ds
-  · simp only [valid, Bool.and_eq_true, List.all_eq_true] at hv
-    exact fnOKFrom_valid _ (hv.1.1.1.1 g hg)
+  · exact fnOKFrom_valid _ ((valid_parts hv).1 g hg)
   · rw [mem_fnNames, Classical.not_not] at hg
     rw [hg]; rfl
 
